@@ -11,6 +11,7 @@ import (
 	"fmt"
 	"sync"
 	"testing"
+	"time"
 
 	sgbucket "github.com/couchbase/sg-bucket"
 	"pgregory.net/rapid"
@@ -31,7 +32,7 @@ type interfereCase struct {
 	Interf  [][]iOp `json:"interf"` // Interf[n]: writes made inside callback invocation n
 }
 
-var interfereOps = []string{"Set", "SetPE", "Delete", "WriteCas0", "Remove", "SetX", "TombX", "Add", "Purge", "SubDoc"}
+var interfereOps = []string{"Set", "SetPE", "Delete", "WriteCas0", "Remove", "SetX", "TombX", "Add", "Purge", "SubDoc", "MetaFuture", "MetaDelFuture"}
 
 func runIOp(w *World, key string, op iOp, serial int) {
 	ds := w.Coll(op.H%len(w.Handles), 0)
@@ -61,6 +62,16 @@ func runIOp(w *World, key string, op iOp, serial int) {
 		_, _ = w.Handles[op.H%len(w.Handles)].PurgeTombstones()
 	case "SubDoc":
 		_, _ = ds.WriteSubDoc(ctx, key, "p", 0, []byte(fmt.Sprintf(`%d`, serial)))
+	case "MetaFuture", "MetaDelFuture":
+		// an imported version whose CAS is an hour ahead of the clock: the writes that follow get
+		// smaller CAS values than the version they replace
+		rc := w.RColl(op.H%len(w.Handles), 0)
+		future := uint64(time.Now().Add(time.Hour).UnixNano())&^0xffff | uint64(0x3000+serial)
+		if op.K == "MetaFuture" {
+			_ = rc.SetWithMeta(ctx, key, cur.Cas, future, 0, nil, body, sgbucket.FeedDataTypeJSON)
+		} else {
+			_ = rc.DeleteWithMeta(ctx, key, cur.Cas, future, 0, nil)
+		}
 	}
 }
 
